@@ -1763,7 +1763,72 @@ def job_worklist(job):
     return {"id": job["id"], "items": out}
 
 
-JOBS = {"worklist": job_worklist, "expansions": job_expansions, "synth": job_synth, "funcmoment": job_funcmoment, "bayesnet": job_bayesnet, "dists": job_dists, "invariants": job_invariants, "session": job_session, "accepts": job_accepts, "analyze": job_analyze, "linrec": job_linrec, "explattice": job_explattice, "simulate": job_simulate}
+def job_typer(job):
+    """records FiniteFixedPointTyper as it runs inside normalize_program: the state after _initialize_state, the
+    support expressions of every loop-body assignment and the state after every _progress call (numeric programs)"""
+    from inputparser import Parser
+    from program import normalize_program
+    from type_inference import FiniteFixedPointTyper as FT
+    apply_settings(job.get("settings"))
+    res = {"id": job["id"], "kind": "typer"}
+    try:
+        program = Parser().parse_string(job["text"])
+    except Exception as ex:
+        res.update(stage="parse", exc=type(ex).__name__, msg=str(ex)[:200])
+        return res
+    rec = {}
+    orig_init, orig_prog, orig_infer = FT._initialize_state, FT._progress, FT.infer_types
+
+    def snap(self):
+        out = {}
+        for v, stt in self.state.items():
+            out[str(v)] = {"vals": [frac_or_str(x) for x in stt.values], "failed": bool(stt.has_failed),
+                           "locked": bool(stt.is_locked), "changed": bool(stt.has_changed)}
+        return out
+
+    def init_(self):
+        orig_init(self)
+        rec["init"] = snap(self)
+        rec["iterations"] = int(self.iterations)
+        rec["maxvals"] = int(self.max_values_before_fail)
+        vs, _ = program_symbols(self.program)
+        ex = Exporter(sorted(set(vs) | {str(v) for v in self.state}), {})
+        body = []
+        for a in self.program.loop_body:
+            st = {"v": str(a.variable), "exprs": [], "interval": False}
+            for e in a.get_support():
+                if type(e) is tuple:
+                    st["interval"] = True
+                else:
+                    st["exprs"].append(ex.poly(sympy.sympify(str(e))))
+            body.append(st)
+        rec["body"] = body
+        rec["vars"] = ex.vars
+        rec["sweeps"] = []
+
+    def prog_(self):
+        orig_prog(self)
+        if "sweeps" in rec:
+            rec["sweeps"].append(snap(self))
+    FT._initialize_state, FT._progress = init_, prog_
+    try:
+        try:
+            program = normalize_program(program)
+        except Unsupported as ex:
+            res.update(stage="unsupported", msg=str(ex)[:200])
+            return res
+        except JobTimeout:
+            raise
+        except Exception as ex:
+            res["normalize_exc"] = f"{type(ex).__name__}: {str(ex)[:150]}"
+    finally:
+        FT._initialize_state, FT._progress = orig_init, orig_prog
+    res["typedefs"] = {str(v): sorted(frac_or_str(x) for x in t.values) for v, t in program.typedefs.items() if hasattr(t, "values")}
+    res.update(rec)
+    return res
+
+
+JOBS = {"typer": job_typer, "worklist": job_worklist, "expansions": job_expansions, "synth": job_synth, "funcmoment": job_funcmoment, "bayesnet": job_bayesnet, "dists": job_dists, "invariants": job_invariants, "session": job_session, "accepts": job_accepts, "analyze": job_analyze, "linrec": job_linrec, "explattice": job_explattice, "simulate": job_simulate}
 
 
 def handle(job):
